@@ -114,6 +114,12 @@ def expected(run, step_commit, step_now):
         for p, fl in st.get("out", []) + [(q, f + "s") for q, f in st.get("in", [])]:
             if "s" in fl:
                 v = now_ws.get(p)
+                if v is not None and v[0] == "lo" and now_cache.get(v[1]) == rec.get(p):
+                    # a skip-cache artifact / plain input replaced by a link to a cache object with exactly the recorded bytes:
+                    # "a link counts as the object it points to" says up to date, "incorrect file type" says not; the statement
+                    # does not decide this corner (--debug and the human output answer differently) — no verdict
+                    out[p] = None
+                    continue
                 out[p] = (v is not None and v[0] == "f" and v[1] == rec.get(p))
                 continue
             want = s1eval.logical(step_commit["snap"], under=p, skip_dirs_top=("r" in fl))
@@ -141,21 +147,20 @@ def human_uptodate(text):
     return False
 
 
-EMPTY_MARK = "[an empty directory that is not committed / whose manifest is not in the cache is rendered like an up-to-date one]"
+EMPTY_MARK = "[the only stale nodes are directories status shows no entries for (deleted, never committed, or manifest not in the cache): rendered like up-to-date ones]"
 
 
 def has_unbacked_empty_dir(tree):
-    if tree["isdir"] and tree["ws"] == "directory" and not tree["kids"] and not (tree["has"] and tree["inc"]):
+    """some directory node without entries is stale"""
+    if tree["isdir"] and not tree["kids"] and not tree["cm"]:
         return True
     return any(has_unbacked_empty_dir(k) for k in tree["kids"])
 
 
 def only_unbacked_empty_dirs_stale(tree):
-    """every stale leaf of the --debug tree is an empty directory without a manifest in the cache"""
+    """every stale leaf of the --debug tree is a directory node without entries"""
     if not tree["kids"]:
-        if tree["cm"]:
-            return True
-        return tree["isdir"] and tree["ws"] == "directory" and not (tree["has"] and tree["inc"])
+        return tree["cm"] or tree["isdir"]
     return all(only_unbacked_empty_dirs_stale(k) for k in tree["kids"])
 
 
@@ -180,7 +185,7 @@ def oracle(run):
         exp = expected(run, commit, s)
         got = s1eval.status_of(s)
         for p, want in exp.items():
-            if p not in got:
+            if p not in got or want is None:
                 continue
             cm = got[p]["tree"]["cm"]
             if cm != want:
